@@ -250,6 +250,23 @@ func (r *HarnessResult) print(w io.Writer, verbose bool) {
 	fmt.Fprintf(w, "  paths=%d steps=%d decisions=%d outcomes=%v wall=%v timedout=%v remaining=%d\n", r.Paths, r.Steps, r.Decisions, r.Outcomes, r.Wall.Round(time.Millisecond), r.TimedOut, r.Remaining)
 	fmt.Fprintf(w, "  queries=%d sat=%d unsat=%d unknown=%d fallbacks=%d solver_time(sum)=%v maxquery=%v slow(>100ms)=%d\n", r.Queries, r.Sat, r.Unsat, r.Unknown, r.Fallbacks, r.SolverTime.Round(time.Millisecond), r.MaxQuery.Round(time.Millisecond), r.Slow)
 	fmt.Fprintf(w, "  covers=%v\n", r.Covers)
+	if forkStats != nil {
+		type kv struct {
+			k string
+			v int
+		}
+		var l []kv
+		for k, v := range forkStats {
+			l = append(l, kv{k, v})
+		}
+		sort.Slice(l, func(i, j int) bool { return l[i].v > l[j].v })
+		for i, x := range l {
+			if i >= 15 {
+				break
+			}
+			fmt.Fprintf(w, "  forks %6d %s\n", x.v, x.k)
+		}
+	}
 	var ks []string
 	for k := range r.Msgs {
 		ks = append(ks, k)
